@@ -148,7 +148,15 @@ func (e *Engine) registerIntrinsics() {
 			}
 			e := r.force(&elemsOf(elems)[elems.off+i]).(*StrV)
 			if e.opaque != nil {
-				return &StrV{opaque: UF("joined", 64, e.opaque)}
+				// an opaque element makes the result opaque: a function of every element
+				var ts []*Term
+				name := "joined"
+				for j := 0; j < elems.len; j++ {
+					t := strTerm(r.force(&elemsOf(elems)[elems.off+j]).(*StrV))
+					name += fmt.Sprintf("_w%d", t.w)
+					ts = append(ts, t)
+				}
+				return &StrV{opaque: UF(name, 64, ts...)}
 			}
 			res.b = append(res.b, e.b...)
 		}
@@ -213,6 +221,12 @@ func (r *Run) opaqueFormat(f *StrV, args *SliceV) *StrV {
 	h.Write([]byte(fs))
 	var ts []*Term
 	name := fmt.Sprintf("fmt_%08x", h.Sum32())
+	if _, conc := f.Concrete(); !conc {
+		// the format itself is data (fmt.Errorf(msg)): the result depends on it
+		t := strTerm(f)
+		name += fmt.Sprintf("_f%d", t.w)
+		ts = append(ts, t)
+	}
 	for i := 0; i < args.len; i++ {
 		iv := elemsOf(args)[args.off+i].(*IfaceV)
 		var t *Term
